@@ -1,5 +1,7 @@
 #!/bin/sh
-# apply_fix.sh <diff> <msg-file> [git-apply options]: apply a validated repair to /repo and commit it with its message
+# apply_fix.sh <diff> <msg-file> [git-apply options]: apply a validated repair to /repo and commit it with its message.
+# Refuses to run on a dirty tree and stages only what the patch touches (never `add -A`: an untracked leftover must not ride along).
 D="$1"; M="$2"; shift 2
-git -C /repo apply "$@" "$D" || { echo "FAILED to apply $D"; exit 1; }
-git -C /repo add -A && git -C /repo commit -q -F "$M" && git -C /repo log -1 --format='%h %s' | cut -c1-120
+[ -z "$(git -C /repo status --porcelain)" ] || { echo "REFUSED: /repo has uncommitted or untracked files:"; git -C /repo status --short; exit 1; }
+git -C /repo apply --index "$@" "$D" || { echo "FAILED to apply $D"; exit 1; }
+git -C /repo commit -q -F "$M" && git -C /repo log -1 --format='%h %s' | cut -c1-120
